@@ -328,14 +328,47 @@ Proof.
     + apply (setter_cols_fresh fs l cs Ec).
 Qed.
 
+(* remove_columns: nothing changes, or the result carries no negotiated state *)
+Lemma remove_cases t names :
+  remove_columns t names = t \/
+  remove_columns t names =
+    mkT (t_fields t) (map clone_col (filter (fun c => negb (existsb (str_eqb (c_name c)) names)) (t_cols t)))
+        (t_lf t) (t_ll t) None.
+Proof. unfold remove_columns. destruct (Nat.eqb _ _); [left|right]; reflexivity. Qed.
+
 Theorem remove_inv fs t names : inv fs t -> inv fs (remove_columns t names).
 Proof.
-  intros [Ef Hwf]. split; [exact Ef|]. unfold wf in *. apply andb_prop in Hwf as [H1 H2].
-  cbn [remove_columns t_fields t_cols]. rewrite H1. cbn [andb]. apply forallb_filter. exact H2.
+  intros [Ef Hwf]. destruct (remove_cases t names) as [->| ->]; [split; assumption|].
+  split; [exact Ef|]. unfold wf in *. apply andb_prop in Hwf as [H1 H2].
+  cbn [t_fields t_cols]. rewrite H1. cbn [andb].
+  apply wf_col_keeps; [apply keeps_clone|]. apply forallb_filter. exact H2.
 Qed.
 
 Theorem remove_fresh t names : fresh_state t -> fresh_state (remove_columns t names).
-Proof. intros [H1 H2]. split; [apply fresh_filter; exact H1|exact H2]. Qed.
+Proof.
+  intros Hf. destruct (remove_cases t names) as [->| ->]; [exact Hf|].
+  split; [apply fresh_map_clone|reflexivity].
+Qed.
+
+(* whatever the table stored: unchanged, or fresh *)
+Theorem remove_coherent rows t names : coherent rows t -> coherent rows (remove_columns t names).
+Proof.
+  intros Hc. destruct (remove_cases t names) as [->| ->]; [exact Hc|].
+  left. split; [apply fresh_map_clone|reflexivity].
+Qed.
+
+Theorem set_limits_inv fs t lim : inv fs t -> inv fs (set_limits t lim).
+Proof.
+  intros [Ef Hwf]. destruct lim as [[lf ll]|]; [|split; assumption]. cbn [set_limits].
+  split; [exact Ef|]. unfold wf in *. apply andb_prop in Hwf as [H1 H2].
+  cbn [t_fields t_cols]. rewrite H1. cbn [andb]. apply wf_col_keeps; [apply keeps_clone|exact H2].
+Qed.
+
+Theorem set_limits_coherent rows t lim : coherent rows t -> coherent rows (set_limits t lim).
+Proof.
+  intros Hc. destruct lim as [[lf ll]|]; [|exact Hc]. cbn [set_limits].
+  left. split; [apply fresh_map_clone|reflexivity].
+Qed.
 
 Theorem ctor_inv fs s lim skip t : fields_okb fs = true -> ctor fs s lim skip = Ok t ->
   inv fs t /\ fresh_state t.
@@ -375,41 +408,6 @@ Proof.
   apply (wf_col_keeps (fun c => set_width c _)); [apply keeps_set_width|exact H2].
 Qed.
 
-(* removing columns that carry no break-by mark from a printed table *)
-Lemma filter_break_remove (keep : column -> bool) cols :
-  (forall c, In c cols -> keep c = false -> c_break c = false) ->
-  filter c_break (filter keep cols) = filter c_break cols.
-Proof.
-  induction cols as [|c r IH]; [reflexivity|]. intros H. cbn [filter].
-  assert (filter c_break (filter keep r) = filter c_break r) as IH' by (apply IH; intros x Hx; apply H; right; exact Hx).
-  destruct (keep c) eqn:E.
-  - cbn [filter]. rewrite IH'. reflexivity.
-  - rewrite (H c (or_introl eq_refl) E). exact IH'.
-Qed.
-
-Lemma lines_from_ext fs c1 c2 : (forall r, break_key fs c1 r = break_key fs c2 r) ->
-  forall rows prev i, lines_from fs c1 prev i rows = lines_from fs c2 prev i rows.
-Proof.
-  intros H. induction rows as [|r rs IH]; intros prev i; [reflexivity|].
-  cbn [lines_from]. rewrite H, IH. reflexivity.
-Qed.
-
-Theorem remove_nonbreak_coherent rows t names :
-  (forall c, In c (t_cols t) -> existsb (str_eqb (c_name c)) names = true -> c_break c = false) ->
-  coherent rows t -> coherent rows (remove_columns t names).
-Proof.
-  intros Hnb [Hf|[Hs Hw]]; [left; apply remove_fresh, Hf|]. right.
-  set (keep := fun c => negb (existsb (str_eqb (c_name c)) names)).
-  assert (vis_pair rows (remove_columns t names) = vis_pair rows t) as Ev.
-  { unfold vis_pair, lines_of. cbn [remove_columns t_fields t_cols t_lf t_ll]. f_equal.
-    apply lines_from_ext. intros r. unfold break_key. fold keep.
-    rewrite filter_break_remove; [reflexivity|].
-    intros c Hc Hk. apply Hnb; [exact Hc|]. unfold keep in Hk. apply negb_false_iff in Hk. exact Hk. }
-  unfold printed_ok. rewrite Ev. split; [exact Hs|].
-  cbn [remove_columns t_cols t_fields]. apply Forall_forall. intros c Hc. apply filter_In in Hc as [Hc _].
-  rewrite Forall_forall in Hw. apply Hw, Hc.
-Qed.
-
 (* ------------------------------------------------------------------ *)
 (* a table built with fmt_obj= from ANY well-formed format state (whatever the
    records, widths and flag of the table that state belongs to) starts fresh *)
@@ -436,35 +434,29 @@ Qed.
 
 (* ------------------------------------------------------------------ *)
 (* histories.  [rows] = the records of the table the state belongs to; a table
-   made with fmt_obj= takes the format object of a table with OTHER records *)
+   made with fmt_obj= takes the format object of a table with OTHER records.
+   remove_columns and set_limits are unrestricted: they forget the negotiated
+   state (repair of the finding stale-width-after-remove-columns) *)
 Inductive reachable (fs : list field) : list row -> tstate -> Prop :=
 | R_ctor rows s lim skip t : ctor fs s lim skip = Ok t -> reachable fs rows t
 | R_set rows t s t' : reachable fs rows t -> set_fmt t s = Ok t' -> reachable fs rows t'
 | R_print rows t : reachable fs rows t -> reachable fs rows (fst (print rows t))
-| R_remove rows t names : reachable fs rows t ->
-    (forall c, In c (t_cols t) -> existsb (str_eqb (c_name c)) names = true ->
-               c_break c = false \/ c_width c = None) ->
-    reachable fs rows (remove_columns t names)
+| R_remove rows t names : reachable fs rows t -> reachable fs rows (remove_columns t names)
+| R_limits rows t lim : reachable fs rows t -> reachable fs rows (set_limits t lim)
 | R_obj rows rows' x lim skip : reachable fs rows' x -> reachable fs rows (ctor_obj x lim skip).
-
-Lemma printed_not_fresh rows t c : printed_ok rows t -> In c (t_cols t) -> c_width c <> None.
-Proof. intros [_ H] Hc. rewrite Forall_forall in H. rewrite (H c Hc). discriminate. Qed.
 
 Theorem reachable_inv fs rows t : fields_okb fs = true -> reachable fs rows t ->
   inv fs t /\ coherent rows t.
 Proof.
   intros Hfs H.
   induction H as [rows s lim skip t H|rows t s t' _ [IH1 IH2] H|rows t _ [IH1 IH2]
-                 |rows t names _ [IH1 IH2] Hnb|rows rows' x lim skip _ [IH1 _]].
+                 |rows t names _ [IH1 IH2]|rows t lim _ [IH1 IH2]|rows rows' x lim skip _ [IH1 _]].
   - destruct (ctor_inv fs s lim skip t Hfs H) as [Hi Hf]. split; [exact Hi|left; exact Hf].
   - destruct (set_fmt_inv fs t s t' Hfs IH1 H) as [Hi Hf]. split; [exact Hi|left; exact Hf].
   - split; [apply print_inv, IH1|right].
     destruct (t_cols t) as [|c r] eqn:Ec; [apply print_empty_coherent, Ec|].
     apply print_coherent; [rewrite Ec; discriminate|exact IH2].
-  - split; [apply remove_inv, IH1|].
-    destruct IH2 as [Hf|Hp]; [left; apply remove_fresh, Hf|].
-    apply remove_nonbreak_coherent; [|right; exact Hp].
-    intros c Hc Hn. destruct (Hnb c Hc Hn) as [Hb|Hw]; [exact Hb|].
-    exfalso. apply (printed_not_fresh rows t c Hp Hc Hw).
+  - split; [apply remove_inv, IH1|apply remove_coherent, IH2].
+  - split; [apply set_limits_inv, IH1|apply set_limits_coherent, IH2].
   - destruct (ctor_obj_inv fs x lim skip IH1) as [Hi Hf]. split; [exact Hi|left; exact Hf].
 Qed.
